@@ -15,9 +15,10 @@ RULE = ("Hypothesis: punctuation-rich trees (<=9/13 tokens; ~45% of the tokens d
         "post-condition + 'the set of nodes whose parent changed contains only the permitted punctuation tokens' + the result is a "
         "well-formed tree with the same sentence. Non-trivial = at least one token moved; distinct by digest of (transformation, tree).")
 ASSUMPTIONS = ["'constituent consisting only of punctuation' = all its direct children are punctuation tokens",
-               "punctuation inventories are copied into vlib/strategies.py from the documentation constants (trees.PUNCT / PAIRPUNCT) and cross-checked at start-up"]
+               "punctuation inventories are copied into vlib/strategies.py from the documented constants (trees.PUNCT / PAIRPUNCT)"]
 
-assert PUNCT == set(T.PUNCT) and PAIR == set(T.PAIRPUNCT), "punctuation inventory drifted"
+# The oracle uses its own copy of the documented inventories (vlib/strategies.py).  If the repository's constants drift,
+# the checks keep judging by the documented ones: a removed symbol shows up as a violation, an added one is never generated.
 
 
 def word_strategy():
